@@ -67,7 +67,7 @@ RatAdd(x, y) == <<x[1] * y[2] + y[1] * x[2], x[2] * y[2]>>
 One == <<1, 1>>
 BetaXs(a, b) == XBase \cup {RatDiv(a, RatAdd(a, b)), RatDiv(RatAdd(a, One), RatAdd(RatAdd(a, b), <<2, 1>>))}
 GammaAs == ABGrid \cup {<<2, 1>>, <<10, 1>>, <<100, 1>>}
-GammaXs(a) == {<<0, 1>>, <<1, 1000000>>, <<1, 100>>, <<1, 2>>, <<1, 1>>, <<5, 2>>, <<10, 1>>, <<100, 1>>, <<1000, 1>>, a, RatAdd(a, One),
+GammaXs(a) == {<<0, 1>>, <<1, 1000000>>, <<1, 100>>, <<1, 2>>, <<1, 1>>, <<5, 2>>, <<10, 1>>, <<100, 1>>, <<1000, 1>>, <<10000, 1>>, <<1000000, 1>>, <<1000000000, 1>>, a, RatAdd(a, One),
                RatAdd(a, <<999, 1000>>), RatAdd(a, <<1001, 1000>>), RatAdd(a, a)}
 
 Emit ==
